@@ -124,3 +124,26 @@ Proof.
   destruct (run_sched (init w_crash) [(0,0); (0,0); (0,0); (0,0)]%nat) as [s|] eqn:E; [| vm_compute in E; discriminate].
   exists s. split; [exists [(0,0); (0,0); (0,0); (0,0)]%nat; auto |]. vm_compute in E. inversion E; subst. vm_compute. auto.
 Qed.
+
+(* ---- the hypotheses of mutex_free_after_exit are met by both kinds of exit ---- *)
+Definition ex_exit : prog := mkP [] 1 [0] [[OCatch [OLock 0 [OFail]]; OLock 0 []]].
+Example exit_by_error_and_by_end :
+  (exists s s', run_sched (init ex_exit) [(0,0); (0,0); (0,0)]%nat = Some s /\ step s 0 0 = Some s' /\
+                inside s 0%nat 0%nat /\ ~ inside s' 0%nat 0%nat /\ unw (nth 0 (rs s) (init_routine [])) = true) /\
+  (exists s s', run_sched (init ex_exit) [(0,0); (0,0); (0,0); (0,0); (0,0); (0,0)]%nat = Some s /\ step s 0 0 = Some s' /\
+                inside s 0%nat 0%nat /\ ~ inside s' 0%nat 0%nat /\ unw (nth 0 (rs s) (init_routine [])) = false).
+Proof.
+  split.
+  - destruct (run_sched (init ex_exit) [(0,0); (0,0); (0,0)]%nat) as [s|] eqn:E; [| vm_compute in E; discriminate].
+    destruct (step s 0 0) as [s'|] eqn:E'; [| vm_compute in E; inversion E; subst; vm_compute in E'; discriminate].
+    exists s, s'. vm_compute in E. inversion E; subst. vm_compute in E'. inversion E'; subst.
+    repeat split; auto.
+    + eexists. split; [reflexivity | simpl; auto].
+    + intros (r & A & B). vm_compute in A. inversion A; subst. simpl in B. contradiction.
+  - destruct (run_sched (init ex_exit) [(0,0); (0,0); (0,0); (0,0); (0,0); (0,0)]%nat) as [s|] eqn:E; [| vm_compute in E; discriminate].
+    destruct (step s 0 0) as [s'|] eqn:E'; [| vm_compute in E; inversion E; subst; vm_compute in E'; discriminate].
+    exists s, s'. vm_compute in E. inversion E; subst. vm_compute in E'. inversion E'; subst.
+    repeat split; auto.
+    + eexists. split; [reflexivity | simpl; auto].
+    + intros (r & A & B). vm_compute in A. inversion A; subst. simpl in B. contradiction.
+Qed.
